@@ -5,6 +5,7 @@ A polynomial is a dict {monomial: coeff}; a monomial is a sorted tuple of
 S^2 -> 1 - C^2 is applied by `Ring.mul` for variables registered as (S,C) pairs.
 """
 from fractions import Fraction
+import math
 from math import gcd
 
 ZERO = {}
@@ -95,7 +96,8 @@ class Ring:
         self.names = []          # index -> name
         self.index = {}          # name -> index
         self.kind = []           # index -> kind string
-        self.trig_S = {}         # S var index -> C var index
+        self.trig_S = {}         # S var index -> C var index (also keys of sq_rule)
+        self.sq_rule = {}        # var index -> polynomial equal to var^2
         self.max_terms = max_terms
 
     def var(self, name, kind="free"):
@@ -156,7 +158,9 @@ class Ring:
         return r
 
     def reduce_trig(self, p):
+        """rewrite v^2 -> rule[v] for every variable with a square rule (S^2 -> 1-C^2, R^2 -> radicand)"""
         trig = self.trig_S
+        sq = self.sq_rule
         work = p
         while True:
             out = {}
@@ -180,10 +184,16 @@ class Ring:
                     continue
                 again = True
                 vi, e = m[hit]
-                ci = trig[vi]
                 rest = m[:hit] + (((vi, e - 2),) if e > 2 else ()) + m[hit + 1:]
-                # S^2 = 1 - C^2
-                for mm, cc in ((rest, c), (mono_mul(rest, ((ci, 2),)), -c)):
+                rule = sq.get(vi)
+                if rule is None:
+                    ci = trig[vi]
+                    repl = (((), 1), (((ci, 2),), -1))          # S^2 = 1 - C^2
+                else:
+                    repl = rule.items()
+                for rm, rc in repl:
+                    mm = mono_mul(rest, rm)
+                    cc = c * rc
                     v = out.get(mm)
                     if v is None:
                         out[mm] = cc
@@ -196,6 +206,11 @@ class Ring:
             work = out
             if not again:
                 return out
+
+    def add_square_rule(self, vi, poly):
+        """register v^2 -> poly (used for square-root variables); poly must not contain v"""
+        self.sq_rule[vi] = dict(poly)
+        self.trig_S[vi] = vi
 
     def pow(self, p, n):
         r = const(1)
@@ -210,13 +225,25 @@ class Ring:
 
     def evalf(self, p, vals):
         """numeric evaluation; vals: index -> float"""
-        tot = 0.0
-        for m, c in p.items():
-            t = float(c)
-            for vi, e in m:
-                t *= vals[vi] ** e
-            tot += t
-        return tot
+        try:
+            tot = 0.0
+            for m, c in p.items():
+                t = c.numerator / c.denominator
+                for vi, e in m:
+                    t *= vals[vi] ** e
+                tot += t
+            return tot
+        except OverflowError:
+            tot = Fraction(0)
+            for m, c in p.items():
+                t = c
+                for vi, e in m:
+                    t *= Fraction(vals[vi]) ** e
+                tot += t
+            try:
+                return tot.numerator / tot.denominator
+            except OverflowError:
+                return math.inf if tot > 0 else -math.inf
 
     def subs(self, p, i, q):
         """substitute variable i by polynomial q"""
